@@ -439,6 +439,13 @@ func GenBankParser(state *pars.State, result *pars.Result) error {
 		}
 	}
 
+	// The residues that were read must be the ones the LOCUS line declares
+	// (a record without ORIGIN describes its sequence through CONTIG).
+	if n := gb.Origin.Len(); n != length && !(n == 0 && gb.Fields.Contig.Accession != "") {
+		what := fmt.Sprintf("LOCUS declares %d residues but the record has %d", length, n)
+		return pars.NewError(what, state.Position())
+	}
+
 	result.SetValue(*gb)
 	return nil
 }
